@@ -239,3 +239,48 @@ theorem parse_printed_property (fmt : Rat → String) (p : RawProperty) (hp : p.
   simp only [hparse]
 
 end Hpl
+
+namespace Hpl
+
+/-- a line break between properties -/
+theorem lx_newline (d : Nat) : Lx ['\n'] d false [] d true (fun _ => True) := by
+  intro rest _ g aw acc _
+  refine ⟨1, [], false, false, by simp, fun _ => rfl, rfl, fun f => ?_⟩
+  rw [List.cons_append, scan_succ]
+  simp [isWs]
+
+theorem nameEnd_newline (xs : List Char) : NameEnd ('\n' :: xs) := nameEnd_cons (by decide) (by decide)
+
+/-- `str(specification)`: the printed properties, one per line -/
+def specChars (fmt : Rat → String) : List RawProperty → List Char
+  | [] => []
+  | [p] => p.chars fmt
+  | p :: ps => p.chars fmt ++ (['\n'] ++ specChars fmt ps)
+
+theorem lexSpec (fmt : Rat → String) : ∀ (ps : List RawProperty), ps ≠ [] → (∀ p ∈ ps, p.printable fmt = true) → (∀ p ∈ ps, p.lexOkB fmt = true) →
+    Lx (specChars fmt ps) 0 true ((specToks fmt ps).map tokKey) 0 false NameEnd
+  | [], h, _, _ => absurd rfl h
+  | [p], _, hp, hl => by
+      simpa [specChars, specToks] using lexProperty fmt p (hp p (by simp)) (hl p (by simp))
+  | p :: q :: rest, _, hp, hl => by
+      have h1 := lexProperty fmt p (hp p (by simp)) (hl p (by simp))
+      have h2 := lexSpec fmt (q :: rest) (by simp) (fun x hx => hp x (by simp [hx])) (fun x hx => hl x (by simp [hx]))
+      have h := Lx.comp h1 (Lx.comp (lx_newline 0) h2 lx_re (fun _ _ => trivial)) lx_re (fun rest _ => nameEnd_newline _)
+      simp only [specChars]
+      refine h.keys ?_
+      simp [specToks]
+
+/-- **C18 on strings (grammar and scanner)**: a file of printed properties, one per line, is scanned and parsed back to exactly
+    those property trees, in order -/
+theorem parse_printed_file (fmt : Rat → String) (ps : List RawProperty) (hne : ps ≠ []) (hp : ∀ p ∈ ps, p.printable fmt = true)
+    (hl : ∀ p ∈ ps, p.lexOkB fmt = true) : parseSpecification (String.ofList (specChars fmt ps)) = buildSpec ps := by
+  obtain ⟨ts, hs, hk⟩ := scan_of_Lx (lexSpec fmt ps hne hp hl) nameEnd_nil
+  have hlex : lex (String.ofList (specChars fmt ps)) = .ok ts := by
+    unfold lex; simp only [String.toList_ofList]; exact hs
+  have hparse : parseFileToks ts = .ok ps := by
+    rw [parseFileToks_sim (ts := specToks fmt ps) hk]; exact parse_file_toks_roundtrip fmt ps hne hp
+  unfold parseSpecification
+  rw [hlex]
+  simp only [hparse]
+
+end Hpl
